@@ -14,6 +14,7 @@ RULE = ("Generated: state type in {positive, complex}, num_visible 1..5 x num_hi
         "|parameter| >= 0.5; distinct = SHA-1 of the canonical JSON of the case.")
 RULE_EXT = ('Extended as built: n up to 10 (1/16 of cases), structured parameter families (equal / alternating / extreme entries), complex states built from a user module half the time; every evaluation is repeated after read-only operations, after evaluating a second object, and along the in-place history A -> B -> (biases of A, weights of B) -> A; sample batches as rank-3, float32, int64 and uint8 tensors; aliases compute_normalization and importance_sampling_numerator/denominator/weight are compared with the same reference. Rounds 5-6: replacement amplitude network (other hidden size) through the rbm_am setter; sparse histories (one entry point, one evaluation per parameter set); ownership of results (held results unchanged by later calls, no shared memory, in-place edits of a result do not leak).')
 RULE_EXT += ' Round 10 (after an exception / long time axis): after a fit() aborted by an exception from a user callback (normalisation evaluated in its callbacks, same space object) and a parameter change; 40 parameter states evaluated on one object with the normalisation asked for twice at each; sub-batch psi compared relative to the modulus.'
+RULE_EXT += " Re-entrant use: psi / probability / normalisation asked for from inside the callbacks of a running fit (every batch end, epoch start and end, the caller's one space object) vs the reference at the parameters of that moment."
 RULE = RULE + " " + RULE_EXT
 ASSUMPTIONS = ["CPU only", "parameters rescaled by construction so that |log weight| <= 300 (double-precision exp range)",
                "rtol 1e-7 against the enumeration oracle (softplus threshold e^-20 per hidden unit), 1e-9 between library outputs"]
@@ -133,6 +134,34 @@ def check(case):
             check_round(mir2, state, space=sp_ if case["row"] % 3 else None)
         except PropertyViolation as v:
             raise PropertyViolation("after-aborted-fit:" + v.bucket, "after a fit() that a user callback aborted with an exception (caught) and a parameter change: " + v.message, v.detail)
+        gen.set_net(state.rbm_am, case["am"])
+        if case.get("ph"):
+            gen.set_net(state.rbm_ph, case["ph"])
+    if case["n"] <= 5 and case["row"] % 3 == 1:
+        # re-entrant use: psi / probability / normalisation asked for from INSIDE the callbacks of a running fit (every batch end and epoch end,
+        # on the caller's one space object, as a MetricEvaluator does): each answer must be that of the parameters the model has at that moment
+        from qucumber.callbacks import LambdaCallback
+        import numpy as _np2
+        sp_ = state.generate_hilbert_space()
+        V_ = R.bits(case["n"])
+        dat_ = sp_[: min(4, sp_.shape[0])].clone()
+        seen_ = []
+
+        def look(s_, *a_):
+            z_ = s_.normalization(sp_).double().clone()
+            seen_.append((gen.net_of(s_.rbm_am), R.lib_to_c(s_.psi(sp_)), s_.probability(sp_).double().clone(), z_, s_.normalization(sp_).double().clone()))
+        guard_, div_ = gen.divergence_guard()
+        state.fit(dat_, epochs=3, pos_batch_size=2, lr=0.05, callbacks=[LambdaCallback(on_batch_end=lambda s_, e_, b_: look(s_), on_epoch_end=lambda s_, e_: look(s_), on_epoch_start=lambda s_, e_: look(s_)), guard_],
+                  **({} if case["type"] == "positive" else {"input_bases": _np2.array([["Z"] * case["n"]] * dat_.shape[0])}))
+        if not div_[0]:
+            for j_, (am_, psi_, pr_, z1_, z2_) in enumerate(seen_):
+                p_ref_ = torch.exp(R.log_marg(am_, V_))
+                require(close(pr_, p_ref_, REF_RTOL) and close(psi_.real ** 2 + psi_.imag ** 2, p_ref_, REF_RTOL), "inside-fit-callback:probability",
+                        f"look #{j_} from inside a callback of a running fit: probability / |psi|^2 are not those of the parameters the model had at that moment")
+                require(close(z1_, p_ref_.sum(), REF_RTOL) and close(z2_, p_ref_.sum(), REF_RTOL), "inside-fit-callback:normalization",
+                        f"look #{j_} from inside a callback of a running fit: normalization() is not the sum of the probabilities of the parameters the model had at that moment",
+                        first=float(z1_), second=float(z2_), want=float(p_ref_.sum()))
+        state.stop_training = False
         gen.set_net(state.rbm_am, case["am"])
         if case.get("ph"):
             gen.set_net(state.rbm_ph, case["ph"])
